@@ -21,6 +21,7 @@ type tabOnlyCfg struct {
 	params    bool     // returning a parameter itself is allowed
 	viaFuncs  []fnRef  // results of these functions may be returned as they are
 	zero      bool     // the zero constant / nil may be returned
+	noRuneCmp bool     // the function decides through table membership only: it does not compare its rune parameter with constants
 }
 
 func ruleTabOnly(p *Prog, r *Report, c tabOnlyCfg) {
@@ -204,6 +205,40 @@ func ruleTabOnly(p *Prog, r *Report, c tabOnlyCfg) {
 		}
 	}
 	r.Check(n > 0, rule, key, p.Pos(f.Pos()), fmt.Sprintf("all %d returns yield a value taken from %v or the default", n, c.table))
+	if c.noRuneCmp {
+		// a range test on the rune in front of the table ("fast path") makes the answer a function of something else
+		// than the table: the default can then be returned for runes the table lists
+		key2 := key + "/no range test on the rune"
+		r.Instance(rule, key2)
+		var bad ssa.Instruction
+		for _, b := range f.Blocks {
+			for _, in := range b.Instrs {
+				bo, ok := in.(*ssa.BinOp)
+				if !ok {
+					continue
+				}
+				switch bo.Op {
+				case token.LSS, token.LEQ, token.GTR, token.GEQ, token.EQL, token.NEQ:
+				default:
+					continue
+				}
+				for _, pair := range [][2]ssa.Value{{bo.X, bo.Y}, {bo.Y, bo.X}} {
+					if _, isK := pair[1].(*ssa.Const); !isK {
+						continue
+					}
+					v := stripConv(pair[0])
+					if par, ok := v.(*ssa.Parameter); ok && len(f.Params) > 0 && par == f.Params[0] {
+						bad = in
+					}
+				}
+			}
+		}
+		pos := p.Pos(f.Pos())
+		if bad != nil {
+			pos = p.IPos(bad)
+		}
+		r.Check(bad == nil, rule, key2, pos, fmt.Sprintf("%s compares its rune with no constant: the answer depends on the rune only through %v", c.fn, c.table))
+	}
 }
 
 func isZeroConst(c *ssa.Const) bool {
